@@ -629,6 +629,15 @@ func c06Limits(c *Ctx, idx int) {
 			return
 		}
 	}
+	// an over-the-limit chain in an operand that this document never reaches (the other operand decides,
+	// an earlier argument fails, the projected array is missing): whether the limit is hit is a
+	// property of the evaluation, so every entry point must agree with the one-shot Search
+	for _, n := range []int{lo + 100, lo - 200} {
+		ch := mk(n)
+		for _, text := range []string{"'first' || (" + ch + ")", "`false` && (" + ch + ")", "not_null('x', " + ch + ")", "none[*].[" + ch + "]", "abs('t') + (" + ch + ")", "none[?" + ch + "]", "[`1`, " + ch + "][0]", "`[]`[*].[" + ch + "]", "(" + ch + ") || 'last'", "{k: 'v', j: " + ch + "}.k"} {
+			c06EntryPoints(c, text)
+		}
+	}
 	c.Nontrivial("limit", fmt.Sprint(idx%8), fmt.Sprint(lo))
 	c.Count(fmt.Sprintf("limit_shape_%d_levels", idx%8), int64(lo))
 }
